@@ -107,13 +107,23 @@ fn run<T: Flt>(src: &mut Src, obs: &mut Obs) -> Result<(), Fail> {
     obs.class(format!("ddim:{}", dd.name()));
     obs.class(if n > 64 { "n:>64" } else if n <= 3 { "n:2-3" } else { "n:4-64" });
 
-    let nq = src.usize_in(16, 48);
+    // 1 of 8 batches looks like the axis: n points, most of them the knots themselves
+    let axis_like = n >= 3 && n <= 64 && src.chance(1, 8);
+    let nq = if axis_like { n } else { src.usize_in(16, 48) };
     let mut qs = Vec::with_capacity(nq);
     let mut qc = Vec::with_capacity(nq);
-    for _ in 0..nq {
-        let (q, c) = query_in_range::<T>(src, &x);
-        qs.push(q);
-        qc.push(c);
+    if axis_like {
+        obs.class("queries:axis-like-batch");
+        for (q, c) in axis_like_batch::<T>(src, &x) {
+            qs.push(q);
+            qc.push(c);
+        }
+    } else {
+        for _ in 0..nq {
+            let (q, c) = query_in_range::<T>(src, &x);
+            qs.push(q);
+            qc.push(c);
+        }
     }
     // entry point
     let scalar_ok = dd == DDim::S1;
